@@ -35,6 +35,7 @@ let get_op = function
   | L [A "reg"; c] -> Register (get_n c)
   | L [A "unreg"; c] -> Unregister (get_n c)
   | L [A "sti"; l] -> SetTargetInfo (get_labels l)
+  | A "nop" -> Nop
   | _ -> bad "op"
 let put_owner = function Coll c -> L [A "c"; put_n c] | TargetInfo -> A "ti"
 let put_state env r =
@@ -42,17 +43,23 @@ let put_state env r =
      put_list (put_pair put_str put_owner) r.n2c;
      put_list put_family (collect env r);
      put_labels r.ti]
+(* a history is (envs steps): envs = the successive states of the collectors, steps = ((env-index op) ...) *)
+let get_envs x = Array.of_list (List.map get_env (match x with L l -> l | _ -> bad "envs"))
+let get_steps envs x =
+  List.map (function
+    | L [i; o] -> (envs.(BZ.to_int (get_int i)), get_op o)
+    | _ -> bad "step") (match x with L l -> l | _ -> bad "steps")
 let register (reg : string -> (Sx.t list -> Sx.t) -> unit) =
-  (* (c06_run orig auto env ops) -> ((outcome c2n n2c collect target_info) ...) one per step *)
+  (* (c06_run orig auto envs steps) -> ((outcome c2n n2c collect target_info) ...) one per step *)
   reg "c06_run" (fun a -> match a with
-    | [orig; auto; env; ops] ->
-        let env = get_env env in
-        let st = if get_bool orig then step_orig env else step env in
+    | [orig; auto; envs; steps] ->
+        let envs = get_envs envs in
+        let orig = get_bool orig in
         let r = ref (empty_reg (get_bool auto)) in
-        put_list (fun o ->
-          let (r', out) = st !r (get_op o) in
+        put_list (fun (env, o) ->
+          let (r', out) = (if orig then step_orig env else step env) !r o in
           r := r';
           match put_state env r' with
           | L l -> L (put_opt put_exn out :: l)
-          | x -> x) (match ops with L l -> l | _ -> bad "ops")
+          | x -> x) (get_steps envs steps)
     | _ -> bad "c06_run")
